@@ -255,7 +255,7 @@ theorem launch_inv {x : Option Nat} {w : World} (h : WInvX x w) (p : Nat) (dup :
         exact hy2 (h.dfdInj y hy1 e he d hc hd))
       (by
         intro cr c hc hcd
-        exact (h.connReq cr c d hc hcd hdf.2).2.2 e he hd)
+        exact (h.connReq cr c d hc hcd hdf.2).2 e he hd)
       ppr hpp rfl hlive
     refine hA.sameCore ?_
     have hA1 : ∀ r, (addWindow w1 ppr.addr .pub (w.req e.rid).msgId e.rid r' p 0 w.nextReq w.nextDfd []).req r
@@ -350,7 +350,7 @@ theorem settle_inv {x : Option Nat} {w : World} (h : WInvX x w) {e : Ent} (he : 
     have hc' : w.connReqs.get? cr = some c := hc
     rw [a1] at hc'; injection hc' with hc'; subst hc'
     rw [a2] at hcd; injection hcd with hcd; subst hcd
-    exact (h.connReq cr c' d' a1 a2 a3).2.2 e he hd
+    exact (h.connReq cr c' d' a1 a2 a3).2 e he hd
 
 /-- MQTTProtocol.handlePUBACK on a connected, live protocol: no exception, invariant preserved -/
 theorem handlePUBACK_inv {w : World} (h : WInv w) (p : Nat) (ppr : Proto) (hpp : w.protos.get? p = some ppr)
@@ -522,7 +522,7 @@ theorem handlePUBREC_inv {w : World} (h : WInv w) (p : Nat) (ppr : Proto) (hpp :
         exact hy2 (h.dfdInj y hy1 _ he d hc hd))
       (by
         intro cr c hc hcd
-        exact (h.connReq cr c d hc hcd hdf.2).2.2 _ he hd)
+        exact (h.connReq cr c d hc hcd hdf.2).2 _ he hd)
       ppr hpp rfl hlive
     -- the release window has no entry under this identifier yet
     have hlook : Ents.lookup wd.ents ppr.addr .rel m = none := by
